@@ -170,6 +170,9 @@ func (vc *FuncVC) havocAll(st *State, resT types.Type, what string) []outcome {
 
 func (vc *FuncVC) callStatic(st *State, fn *ssa.Function, args []Val, binds []Val, resT types.Type) []outcome {
 	name := ShortName(fn)
+	if vc.pendingAt != nil && !(vc.step != nil && (strings.HasPrefix(name, "atomic.") || (vc.g.DB.Funcs[name] != nil && !vc.g.DB.Funcs[name].Inline))) {
+		vc.flushAtCall(st)
+	}
 	if st.fr.caller == nil {
 		for _, ch := range vc.con.CallHavoc {
 			if name == ch.Callee || strings.HasSuffix(name, ch.Callee) {
@@ -195,7 +198,7 @@ func (vc *FuncVC) callStatic(st *State, fn *ssa.Function, args []Val, binds []Va
 	con := vc.g.DB.Funcs[name]
 	if vc.step != nil {
 		// thread-modular mode: callees with a step contract are executed step by step (inlined)
-		if sc := vc.g.DB.Funcs[name+"@step"]; sc != nil && fn.Blocks != nil && !sc.Trusted {
+		if sc := vc.g.DB.Funcs[name+"@step"]; sc != nil && fn.Blocks != nil && !sc.Trusted && fnPkg(fn) != nil && fnPkg(fn).Name() == vc.pkg {
 			if !hasLoop(fn) {
 				return vc.inline(st, fn, args, binds, resT)
 			}
@@ -206,6 +209,25 @@ func (vc *FuncVC) callStatic(st *State, fn *ssa.Function, args []Val, binds []Va
 	if con != nil && !con.Inline {
 		vc.curBinds = binds
 		defer func() { vc.curBinds = nil }()
+		if vc.step != nil && st.step != nil && st.dry == nil && vc.touchesShared(con) {
+			// thread-modular mode: a contract call that may write shared state is one step
+			if st.step.touched {
+				vc.interfere(st)
+			}
+			pre := make(map[string]string, len(st.heaps))
+			for k, v := range st.heaps {
+				pre[k] = v
+			}
+			st.inAtomic = true
+			vc.flushAtCall(st)
+			outs := vc.applyContract(st, con, name, fn, fn.Signature, args, resT, false)
+			for _, o := range outs {
+				o.st.inAtomic = false
+				o.st.step.touched = true
+				vc.stepCheck(o.st, "call:"+shortTail(name), pre)
+			}
+			return outs
+		}
 		return vc.applyContract(st, con, name, fn, fn.Signature, args, resT, false)
 	}
 	depth := 0
@@ -983,4 +1005,34 @@ func (vc *FuncVC) atomicStep(st *State, op string, l *Loc, pt types.Type, args [
 	}
 	st.inAtomic = false
 	return []outcome{{st, st.freshVal(resT, "atomic")}}
+}
+
+// touchesShared: does the contract's modifies clause mention a shared heap?
+func (vc *FuncVC) touchesShared(con *Contract) bool {
+	if con.ModAll {
+		return true
+	}
+	if con.Pure {
+		return false
+	}
+	for _, m := range con.Modifies {
+		if hn, ok := modHeapName(m); ok {
+			for _, h := range vc.heapsOfName(con.Pkg, hn) {
+				if vc.step.shared[h] {
+					return true
+				}
+			}
+			continue
+		}
+		// location: decide by the field name syntactically (T.f of the selector)
+		s := m.String()
+		for h := range vc.step.shared {
+			parts := strings.Split(h, ".")
+			f := strings.TrimPrefix(parts[len(parts)-1], "$")
+			if strings.HasSuffix(s, "."+f) || strings.Contains(s, "."+f+"[") {
+				return true
+			}
+		}
+	}
+	return false
 }
